@@ -20,6 +20,16 @@ def ring_class(check):
   return check.repo.cls('carbon.hashing', 'ConsistentHashRing')
 
 
+def _q(e, fn):
+  """dotted name of a callee with `from M import f` resolved to M.f (so that `insort(...)` reads `bisect.insort(...)`)"""
+  d = dotted(e) or ''
+  if isinstance(e, ast.Name):
+    b = fn.module.imports.get(e.id)
+    if b and b[0] == 'from':
+      return '%s.%s' % (b[1], b[2])
+  return d
+
+
 def _bump_by_one(w, pos):
   """the loop body is exactly `pos += 1` / `pos = pos + 1`"""
   return len(w.body) == 1 and (
@@ -80,14 +90,14 @@ def rule_local_mutation(check, cx, rule):
         if isinstance(f, ast.Attribute) and dotted(f.value) == 'self.ring' and f.attr in (
             'append', 'insert', 'remove', 'pop', 'sort', 'reverse', 'clear', 'extend'):
           writes = True
-        if (dotted(f) or '').startswith('bisect.insort') and n.args and dotted(n.args[0]) == 'self.ring':
+        if _q(f, m).startswith('bisect.insort') and n.args and dotted(n.args[0]) == 'self.ring':
           writes = True
       if not writes:
         continue
       if mname == '__init__':
         rule.ok('__init__ creates the empty ring', m.loc(n))
       elif mname == 'add_node':
-        good = isinstance(n, ast.Call) and (dotted(n.func) or '').startswith('bisect.insort') and len(n.args) == 2
+        good = isinstance(n, ast.Call) and _q(n.func, m).startswith('bisect.insort') and len(n.args) == 2
         if good:
           e = n.args[1]
           ent = None
@@ -296,7 +306,7 @@ def run(check):
     walk(add.node.body, set())
     # the inserted position
     ins = [c for c in walk_no_nested(add.node, include_self=False) if isinstance(c, ast.Call) and
-           (dotted(c.func) or '').startswith('bisect.insort')]
+           _q(c.func, add).startswith('bisect.insort')]
     pos_names = set()
     for c in ins:
       e = c.args[1] if len(c.args) > 1 else None
@@ -357,7 +367,22 @@ def run(check):
     loopvar_terms = {t for t in tpls}
     norm_t = set()
     for tpl, args in tpls:
-      norm_t.add((tpl, tuple(a.replace('elem(xrange(', 'elem(range(') for a in args)))
+      args = tuple(a.replace('elem(xrange(', 'elem(range(') for a in args)
+      # "%s" of an integer (a range index, as an f-string writes it) renders exactly like "%d"
+      specs = fmt_specs(tpl) if tpl != '?' else []
+      if len(specs) == len(args) and '%' in tpl:
+        pieces, i_ = [], 0
+        out_tpl = tpl
+        for (flags, ty), a in zip(specs, args):
+          if ty == 's' and not flags and a.startswith('elem(range('):
+            # replace this occurrence of %s by %d
+            k_ = -1
+            for _ in range(i_ + 1):
+              k_ = out_tpl.find('%', k_ + 1)
+            out_tpl = out_tpl[:k_] + '%d' + out_tpl[k_ + 2:]
+          i_ += 1
+        tpl = out_tpl
+      norm_t.add((tpl, args))
     if norm_t == want:
       r_b.ok('replica keys: "%s:%d" % (node, i) and, for fnv1a_ch, "%d-%s" % (i, node[1])', add.loc())
     else:
@@ -425,11 +450,11 @@ def run(check):
           if floop and defs_in and not recomputed and len(defs_in) == 1:
             lp_ = floop[-1]
             inserts = [x for x in lp_.body if isinstance(x, ast.Expr) and isinstance(x.value, ast.Call) and
-                       (dotted(x.value.func) or '').startswith('bisect.insort') and len(x.value.args) == 2]
+                       _q(x.value.func, add).startswith('bisect.insort') and len(x.value.args) == 2]
             adds_ = [x for x in lp_.body if isinstance(x, ast.Expr) and isinstance(x.value, ast.Call) and
                      isinstance(x.value.func, ast.Attribute) and x.value.func.attr == 'add' and dotted(x.value.func.value) == c.id and
                      len(x.value.args) == 1]
-            all_ins = [x for x in ast.walk(add.node) if isinstance(x, ast.Call) and (dotted(x.func) or '').startswith('bisect.insort')]
+            all_ins = [x for x in ast.walk(add.node) if isinstance(x, ast.Call) and _q(x.func, add).startswith('bisect.insort')]
             if len(inserts) == 1 and len(adds_) == 1 and len(all_ins) == 1:
               ent_t = vn.term(inserts[0].value.args[1], inserts[0])
               pos_t = ent_t[1] if isinstance(ent_t, tuple) and ent_t[0] == 'tuple' and len(ent_t) == 3 else None
@@ -439,6 +464,34 @@ def run(check):
         if all_positions and body_ok:
           okb = True
           r_b.ok('collision handling: while the position is taken by any ring entry, position += 1 (published behaviour)', add.loc(w))
+    if not okb:
+      # the same search written as  for P in itertools.count(W): if P not in <positions of all ring entries>: <take P>; break
+      for fl in [n for n in walk_no_nested(add.node, include_self=False) if isinstance(n, ast.For)]:
+        it = fl.iter
+        if not (isinstance(it, ast.Call) and _q(it.func, add) in ('itertools.count', 'count') and len(it.args) == 1 and
+                isinstance(fl.target, ast.Name)):
+          continue
+        P = fl.target.id
+        tests = [x for x in fl.body if isinstance(x, ast.If)]
+        if len(tests) != 1 or len(fl.body) != 1:
+          continue
+        t = tests[0].test
+        free = isinstance(t, ast.Compare) and len(t.ops) == 1 and isinstance(t.ops[0], ast.NotIn) and isinstance(t.left, ast.Name) and t.left.id == P
+        if not free or not any(isinstance(x, ast.Break) for x in tests[0].body) or tests[0].orelse:
+          continue
+        vn = ValueNumbers(cx, add)
+        ct = vn.term(t.comparators[0], fl)
+        while isinstance(ct, tuple) and ct[0] == 'call' and ct[1] in ('set', 'list', 'tuple', 'frozenset') and len(ct) == 3:
+          ct = ct[2]
+        RING = ('attr', ('param', add.params[0]), 'ring')
+        outer = [f_ for f_ in walk_no_nested(add.node, include_self=False) if isinstance(f_, ast.For) and f_ is not fl and
+                 any(x is fl for x in ast.walk(f_))]
+        defs_in = [d for d in walk_no_nested(add.node, include_self=False) if isinstance(d, ast.Assign) and isinstance(t.comparators[0], ast.Name) and
+                   any(isinstance(tg, ast.Name) and tg.id == t.comparators[0].id for tg in d.targets)]
+        fresh = not isinstance(t.comparators[0], ast.Name) or (outer and defs_in and all(any(x is d for x in ast.walk(outer[-1])) for d in defs_in))
+        if ct == ('comp', ('field', ('elem', RING), 0), ()) and fresh:
+          okb = True
+          r_b.ok('collision handling: first position >= the hashed one that no ring entry occupies (published behaviour)', add.loc(fl))
     if not okb:
       r_b.violate('collision handling differs from the published ring', add, whiles[0] if whiles else None, 'add_node does not resolve a '
                   'position collision the published way (`while position in [r[0] for r in self.ring]: position += 1`): rings with '
@@ -528,7 +581,7 @@ def run(check):
     bis = None
     for n in g.nodes:
       for c in g.calls(n):
-        if (dotted(c.func) or '') == 'bisect.bisect_left' and len(c.args) == 2 and dotted(c.args[0]) == 'self.ring':
+        if _q(c.func, m) == 'bisect.bisect_left' and len(c.args) == 2 and dotted(c.args[0]) == 'self.ring':
           bis = c
           ent = _resolve(g, n, c.args[1])
           if isinstance(ent, ast.Tuple) and len(ent.elts) == 2 and isinstance(ent.elts[1], ast.Tuple) and not ent.elts[1].elts:
